@@ -845,3 +845,25 @@ func (g *Gen) allokTerm(s *State, name string) string {
 	}
 	return "true"
 }
+
+
+// funcNamesObj: selector-style names of a method object ("(*T).M", "pkg.(*T).M").
+func funcNamesObj(obj types.Object) []string {
+	fn, ok := obj.(*types.Func)
+	if !ok {
+		return nil
+	}
+	sig, _ := fn.Type().(*types.Signature)
+	if sig == nil || sig.Recv() == nil {
+		return []string{fn.Name()}
+	}
+	rt := typeShort(sig.Recv().Type())
+	bare := rt
+	if i := strings.LastIndex(rt, "."); i >= 0 {
+		bare = rt[i+1:]
+		if strings.HasPrefix(rt, "*") {
+			bare = "*" + bare
+		}
+	}
+	return []string{"(" + bare + ")." + fn.Name(), "(" + rt + ")." + fn.Name()}
+}
